@@ -204,6 +204,248 @@ fn codec_case(ctx: &mut Ctx, gidx: usize, idx: usize, rng: &mut Rng) {
     ctx.out.case(&canon, true);
 }
 
+
+// ---- 3.5 inch 524-byte codec on real WOZ2-style tracks -------------------------------------------
+
+fn content35(rng: &mut Rng, class: usize, sub: usize) -> (Vec<u8>, &'static str) {
+    match class {
+        0 => (rng.bytes(524), "random"),
+        1 => { let b = rng.byte(); (vec![b; 524], "all-equal") }
+        2 => { let mut v = vec![0u8; 524]; let p = rng.below(524); v[p] = 1 << rng.below(8); (v, "single-bit") }
+        3 => {
+            // byte value at one of the positions that matter for the triples and the 2-byte tail
+            let val = (sub % 256) as u8;
+            let pos = [0usize, 1, 2, 3, 11, 12, 521, 522, 523, 260, 261, 262][(sub / 256) % 12];
+            let fill = if rng.chance(50) { 0 } else { rng.byte() };
+            let mut v = vec![fill; 524];
+            v[pos] = val;
+            (v, "byte-at-pos")
+        }
+        4 => (vec![0xff; 524], "all-ones"), // every checksum carries
+        _ => { let a = rng.byte(); let b = rng.byte(); let c = rng.byte(); ((0..524).map(|i| [a, b, c][i % 3]).collect(), "period-3") }
+    }
+}
+
+/// data field of `sector` in an aligned 3.5 inch nibble stream: after `D5 AA 96 cyl sec side fmt chk`,
+/// the data prolog `D5 AA AD`, the sector nibble, then 703 nibbles
+fn data_field35(nibs: &[u8], sector: u8) -> Option<Vec<u8>> {
+    let inv = a2kit::img::disk35::invert_62();
+    let len = nibs.len();
+    let mut i = 0;
+    while i + 10 < len {
+        if nibs[i] == 0xd5 && nibs[i + 1] == 0xaa && nibs[i + 2] == 0x96 {
+            if let Ok(sec) = a2kit::img::disk35::decode_62(nibs[i + 4], inv) {
+                if sec == sector {
+                    let mut j = i + 8;
+                    while j + 4 + 703 <= len && j < i + 8 + 40 {
+                        if nibs[j] == 0xd5 && nibs[j + 1] == 0xaa && nibs[j + 2] == 0xad { return Some(nibs[j + 4..j + 4 + 703].to_vec()); }
+                        j += 1;
+                    }
+                    return None;
+                }
+            }
+            i += 8;
+        } else { i += 1; }
+    }
+    None
+}
+
+fn get_bits(buf: &[u8], off: usize, n: usize) -> Vec<u8> {
+    // n nibbles (8 bits each) starting at bit offset `off`
+    (0..n).map(|k| { let mut v = 0u8; for b in 0..8 { let p = off + 8 * k + b; v = (v << 1) | ((buf[p / 8] >> (7 - p % 8)) & 1); } v }).collect()
+}
+fn put_bits(buf: &mut [u8], off: usize, nibs: &[u8]) {
+    for (k, x) in nibs.iter().enumerate() { for b in 0..8 { let p = off + 8 * k + b; let m = 1u8 << (7 - p % 8); if (x >> (7 - b)) & 1 == 1 { buf[p / 8] |= m } else { buf[p / 8] &= !m } } }
+}
+
+fn codec35_case(ctx: &mut Ctx, gidx: usize, sub: usize, rng: &mut Rng) {
+    let sides = 1 + (sub % 2);
+    let track = if rng.chance(30) { *rng.pick(&[0usize, 15, 16, 63, 64, 79]) * sides + rng.below(sides) } else { rng.below(80 * sides) } as u8;
+    let zone = (track as usize / sides) / 16;
+    let nsec = [12usize, 11, 10, 9, 8][zone];
+    let bytes = a2kit::img::disk35::TRACK_BITS[zone] / 8;
+    let class = if sub < 3072 { 3 } else { [0, 0, 0, 1, 2, 4, 5, 3][rng.below(8)] };
+    let nwrites = 1 + rng.below(3);
+    let mut desc = format!("idx={} codec=35 sides={} track={} zone={}", gidx, sides, track, zone);
+    let mut canon: Vec<u8> = vec![35, sides as u8, track];
+    let res = guarded(|| {
+        let mut out: Vec<(String, String)> = Vec::new();
+        let mut fails: Vec<(String, String)> = Vec::new();
+        let (mut bits, mut obj) = a2kit::img::disk35::create_std_track(track, sides as u8, bytes + (512 - bytes % 512) + 512);
+        if rng.chance(50) { obj.set_bit_ptr(rng.below(obj.bit_count())); }
+        let mut expect: Vec<Vec<u8>> = vec![vec![0u8; 524]; nsec];
+        let mut last: Option<(u8, Vec<u8>)> = None;
+        for w in 0..nwrites {
+            let sector = rng.below(nsec) as u8;
+            let (dat, cls) = content35(rng, class, sub / 2 + w * 977);
+            if let Err(e) = obj.write_sector(&mut bits, &dat, track, sector) { fails.push(("codec-write-accepted".into(), format!("codec35/write-refused/{}", nib_err(&e)))); continue; }
+            expect[sector as usize] = dat.clone();
+            let save = obj.get_bit_ptr();
+            let nibs = obj.to_nibbles(&bits);
+            obj.set_bit_ptr(save);
+            match data_field35(&nibs, sector) {
+                Some(field) => { out.push((format!("c08 enc35 {}", hx(&dat)), hx(&field))); last = Some((sector, field)); }
+                None => fails.push(("codec-field-present".into(), "codec35/data-field-not-found".into())),
+            }
+            let mut order: Vec<usize> = (0..nsec).collect();
+            for i in (1..nsec).rev() { let j = rng.below(i + 1); order.swap(i, j); }
+            for s in order {
+                match obj.read_sector(&bits, track, s as u8) {
+                    Ok(got) => if got != expect[s] { fails.push(("codec-readback".into(), (if s as u8 == sector { "codec35/readback-differs" } else { "codec35/other-sector-changed" }).into())); },
+                    Err(e) => fails.push(("codec-readback".into(), format!("codec35/read-refused/{}", nib_err(&e)))),
+                }
+            }
+            if w == 0 {
+                if let Ok(_) = obj.read_sector(&bits, track, nsec as u8 + rng.below(40) as u8) { fails.push(("codec-wrong-sector".into(), "codec35/missing-sector-accepted".into())); }
+                let wrong = (track as usize + 1 + rng.below(100)) as u8;
+                if let Ok(_) = obj.read_sector(&bits, wrong, sector) { fails.push(("codec-wrong-track".into(), "codec35/wrong-track-accepted".into())); }
+            }
+            desc += &format!(" w{}=({},{})", w, sector, cls);
+            canon.push(sector); canon.extend_from_slice(&dat);
+        }
+        // decoder on the intact and on a damaged field; the field is located in the raw bit buffer by
+        // searching the bit offset at which the 703 nibbles appear (fields are not byte aligned here)
+        if let Some((sector, field)) = last {
+            let ans = match obj.read_sector(&bits, track, sector) { Ok(v) => format!("ok {}", hx(&v)), Err(e) => format!("err {}", nib_err(&e)) };
+            out.push((format!("c08 dec35 {}", hx(&field)), ans));
+            let total = obj.bit_count();
+            let mut found = None;
+            let mut off = 0;
+            while off + 703 * 8 <= total {
+                if get_bits(&bits, off, 6) == field[0..6] && get_bits(&bits, off, 703) == field { found = Some(off); break; }
+                off += 1;
+            }
+            if let Some(off) = found {
+                let mut dmg = field.clone();
+                let kind = rng.below(4);
+                for _ in 0..1 + rng.below(3) {
+                    let p = rng.below(703);
+                    dmg[p] = match kind { 0 => 0x80 | rng.byte(), 1 => field[rng.below(703)], 2 => *rng.pick(&[0xd5u8, 0xaa, 0x80, 0x95, 0x94]), _ => dmg[p] ^ (1 << rng.below(7)) };
+                }
+                put_bits(&mut bits, off, &dmg);
+                // the same nibbles may also be the field of another sector: make sure it is this one
+                let save = obj.get_bit_ptr();
+                let nibs = obj.to_nibbles(&bits);
+                obj.set_bit_ptr(save);
+                if data_field35(&nibs, sector) == Some(dmg.clone()) {
+                    let ans = match obj.read_sector(&bits, track, sector) { Ok(v) => format!("ok {}", hx(&v)), Err(e) => format!("err {}", nib_err(&e)) };
+                    out.push((format!("c08 dec35 {}", hx(&dmg)), ans));
+                }
+                put_bits(&mut bits, off, &field);
+            }
+        }
+        (out, fails, desc.clone())
+    });
+    match res {
+        Ok((out, fails, d)) => {
+            for (q, a) in &out { ctx.out.q(q, a); }
+            if fails.is_empty() { ctx.out.oracle(true, "codec35-track", "-", &d); }
+            for (o, s) in &fails { ctx.out.oracle(false, o, s, &d); }
+            ctx.out.sample(&d);
+            ctx.out.count("codec:35");
+        }
+        Err(p) => ctx.out.oracle(false, "codec-no-panic", &format!("panic:{}", panic_site(&p)), &desc),
+    }
+    ctx.out.case(&canon, true);
+}
+
+
+// ---- op sequences on one 5.25 inch track: the real TrackBits object against Model.Track ----------
+
+fn rotate_bits(buf: &mut Vec<u8>, n: usize, k: usize) {
+    // rotate the first n bits left by k (bit j of the result = bit (j+k)%n of the original)
+    let get = |b: &Vec<u8>, p: usize| (b[p / 8] >> (7 - p % 8)) & 1;
+    let orig = buf.clone();
+    for j in 0..n {
+        let v = get(&orig, (j + k) % n);
+        let m = 1u8 << (7 - j % 8);
+        if v == 1 { buf[j / 8] |= m } else { buf[j / 8] &= !m }
+    }
+}
+
+fn track_case(ctx: &mut Ctx, idx: usize, rng: &mut Rng) {
+    let six_two = rng.chance(65);
+    let nsec: usize = if six_two { 16 } else { 13 };
+    let sync_bits = *rng.pick(&[8usize, 10, if six_two { 10 } else { 9 }]);
+    let tc = TrackCase { six_two, sync_bits, vol: rng.byte(), track: rng.below(35) as u8 };
+    let nops = 3 + rng.below(7);
+    let mut desc = format!("idx={} trackseq codec={} sync={} vol={} track={}", idx, if six_two { "62" } else { "53" }, sync_bits, tc.vol, tc.track);
+    let res = guarded(|| {
+        let mut fails: Vec<(String, String)> = Vec::new();
+        let (mut bits, mut obj) = make_track(&tc);
+        let n = obj.bit_count();
+        // rotate the track so that the end of the buffer falls somewhere else (mostly inside a data field)
+        let rot = if rng.chance(60) { rng.below(n) } else { 0 };
+        if rot > 0 { rotate_bits(&mut bits, n, rot); }
+        // positions known to be on a nibble boundary: the (rotated) track start, and wherever an operation stopped
+        let mut aligned: Vec<usize> = vec![(n - rot) % n];
+        let start = if rng.chance(70) { aligned[0] } else { rng.below(n) };
+        let mut trusted = start == aligned[0] || sync_bits > 8; // 8-bit sync tracks cannot re-synchronise
+        obj.set_bit_ptr(start);
+        let buf0 = bits.clone();
+        let mut expect: Vec<Vec<u8>> = vec![vec![0u8; 256]; nsec];
+        let mut ops: Vec<String> = Vec::new();
+        let mut ans: Vec<String> = Vec::new();
+        desc += &format!(" rot={} start={} ops=", rot, start);
+        for _ in 0..nops {
+            let r = rng.below(100);
+            let sector = if rng.chance(8) { nsec + rng.below(20) } else { rng.below(nsec) } as u8;
+            let track = if rng.chance(6) { tc.track.wrapping_add(1 + rng.below(30) as u8) } else { tc.track };
+            let valid = (sector as usize) < nsec && track == tc.track;
+            if r < 45 {
+                let cls = [0, 0, 1, 2, 4, 5][rng.below(6)];
+                let (dat, _) = sector_content(rng, cls, 0);
+                ops.push(format!("w:{}:{}:{}", track, sector, hx(&dat)));
+                desc += &format!("W{}/{} ", track, sector);
+                match obj.write_sector(&mut bits, &dat, track, sector) {
+                    Ok(()) => { ans.push("ok".into()); if valid { expect[sector as usize] = dat; } else if trusted { fails.push(("track-invalid-refused".into(), "track/invalid-write-accepted".into())); } }
+                    Err(e) => { ans.push(format!("err:{}", nib_err(&e))); if valid && trusted { fails.push(("track-write".into(), format!("track/valid-write-refused/{}", nib_err(&e)))); } }
+                }
+            } else if r < 88 {
+                ops.push(format!("r:{}:{}", track, sector));
+                desc += &format!("R{}/{} ", track, sector);
+                match obj.read_sector(&bits, track, sector) {
+                    Ok(v) => { ans.push(format!("ok:{}", hx(&v))); if trusted { if !valid { fails.push(("track-invalid-refused".into(), "track/invalid-read-accepted".into())); } else if v != expect[sector as usize] { fails.push(("track-readback".into(), "track/read-mismatch".into())); } } }
+                    Err(e) => { ans.push(format!("err:{}", nib_err(&e))); if valid && trusted { fails.push(("track-read".into(), format!("track/valid-read-refused/{}", nib_err(&e)))); } }
+                }
+            } else {
+                let pnew = if rng.chance(60) { aligned[rng.below(aligned.len())] } else { trusted = trusted && sync_bits > 8; rng.below(n) };
+                ops.push(format!("p:{}", pnew));
+                desc += &format!("P{} ", pnew);
+                obj.set_bit_ptr(pnew);
+                ans.push("ok".into());
+            }
+            aligned.push(obj.get_bit_ptr());
+        }
+        // final sweep by the oracle (not part of the model request)
+        let ptr_end = obj.get_bit_ptr();
+        let fin = format!("ptr:{};fnv:{}", ptr_end, fnv(&bits));
+        if trusted {
+            for s in 0..nsec {
+                match obj.read_sector(&bits, tc.track, s as u8) {
+                    Ok(v) => if v != expect[s] { fails.push(("track-final-sweep".into(), "track/read-mismatch".into())); },
+                    Err(e) => fails.push(("track-final-sweep".into(), format!("track/valid-read-refused/{}", nib_err(&e)))),
+                }
+            }
+        }
+        let req = format!("c08 trk {} {} {} {} {} {}", if six_two { 1 } else { 0 }, sync_bits, n, start, hx(&buf0), ops.join(";"));
+        ans.push(fin);
+        (req, ans.join(";"), fails, desc.clone(), trusted)
+    });
+    match res {
+        Ok((req, ans, fails, d, trusted)) => {
+            ctx.out.q(&req, &ans);
+            if fails.is_empty() { ctx.out.oracle(true, "track-seq", "-", &d); }
+            let mut fails = fails; fails.sort(); fails.dedup();
+            for (o, s) in &fails { ctx.out.oracle(false, o, s, &d); }
+            ctx.out.sample(&d);
+            ctx.out.count(if trusted { "trackseq:aligned" } else { "trackseq:unaligned-start" });
+            ctx.out.case(d.as_bytes(), true);
+        }
+        Err(p) => { ctx.out.oracle(false, "codec-no-panic", &format!("panic:{}", panic_site(&p)), &desc); ctx.out.case(desc.as_bytes(), false); }
+    }
+}
+
 /// 4&4: `encode_44` is private; it is observable in the address field of a formatted track
 /// (volume, track, sector, checksum), `decode_44` is public.
 fn addr44_case(ctx: &mut Ctx, idx: usize, rng: &mut Rng) {
@@ -250,6 +492,21 @@ pub fn run(ctx: &mut Ctx) {
         let idx = base + sub;
         let mut r = rng.fork(idx as u64);
         if ctx.out.wants(idx) { codec_case(ctx, idx, sub, &mut r); }
+    }
+    // 3.5 inch codec: the first 3072 sub-indices walk every byte value at 12 positions
+    let n35 = ctx.n(400, 3072 + 3000);
+    for k in 0..n35 {
+        let sub = if ctx.tier_thorough { k } else if k < 256 { (k * 1061 + (ctx.seed as usize % 3072)) % 3072 } else { 3072 + k };
+        let idx = 50000 + sub;
+        let mut r = rng.fork(idx as u64);
+        if ctx.out.wants(idx) { codec35_case(ctx, idx, sub, &mut r); }
+    }
+    // op sequences on single tracks against Model.Track
+    let ntrk = ctx.n(120, 1500);
+    for k in 0..ntrk {
+        let idx = 70000 + k;
+        let mut r = rng.fork(idx as u64);
+        if ctx.out.wants(idx) { track_case(ctx, idx, &mut r); }
     }
     // Part B: whole images
     witness_cases(ctx, 90000);
